@@ -214,8 +214,26 @@ def obj_snapshot(obj):
             'port_name': getattr(obj, 'port_name', None)}
 
 
+HEADROOM = 950      # Python frames available to the code under test, whatever the harness's own stack depth
+
+
 def execute(scn, want_events=False):
     """Run the scenario.  Returns a History."""
+    # the depth of the caller's stack (fork pool worker, replay, self-test, tracer) must not decide whether
+    # deeply recursive code under test hits the recursion limit: give it the same headroom everywhere
+    depth, f = 0, sys._getframe()
+    while f is not None:
+        depth += 1
+        f = f.f_back
+    old_limit = sys.getrecursionlimit()
+    sys.setrecursionlimit(depth + HEADROOM)
+    try:
+        return _execute(scn, want_events)
+    finally:
+        sys.setrecursionlimit(old_limit)
+
+
+def _execute(scn, want_events=False):
     reset_module_state()
     world = World(scn)
     hist = History()
